@@ -35,7 +35,9 @@ fn baseline(b: u64) -> Plan {
     if (b / 21) % 2 == 1 || load == "stats_dir_gone" {
         s.client_stats = Some("on".into());
         s.persist_dir = Some("/tmp".into());
-        s.status_interval = Some(*rng.pick(&[1i64, 10]));
+        // (0 is accepted by the server: statistics are then published and reported as often as
+        // the loops come round)
+        s.status_interval = Some(*rng.pick(&[1i64, 10, 0]));
     }
     s.batch_size = *rng.pick(&[1i64, 16, 64]);
     world_knobs(&mut rng, &mut plan, false);
